@@ -3,7 +3,7 @@ package checks
 func init() {
 	Register(&Check{
 		ID: "C11", Title: "pure, deterministic, re-entrant", Race: true,
-		Files: append(apiFiles, hf("", "zz_verif_c10.go"), hf("", "zz_verif_c11.go")), LoadPkgs: apiLoad, InitPkgs: apiInit,
+		Files: apiFiles, LoadPkgs: apiLoad, InitPkgs: apiInit,
 		Cases: func(tier string) []Case {
 			base := c10Cases(tier)
 			var cases []Case
